@@ -348,17 +348,14 @@ def jumpOk (prog : List (Nat × Bytes)) : Option Nat → Bool
   | none => true
   | some n => hasLine prog n
 
-/-- inside the `with` block of `chain_`, after `_clear_all`: open the file, LOAD / MERGE (`file` = the
-    resulting program text and size; `none` = File not found), reset the stacks, jump -/
-def chainLoad (fixHold : Bool) (file : Option (List (Nat × Bytes) × Nat)) (jump : Option Nat) (s1 : St) :
+/-- inside the two `with` blocks of `chain_` (the file is open), after `_clear_all`: LOAD / MERGE
+    (`pf` = the resulting program text and size), reset the stacks, jump -/
+def chainLoad (fixHold : Bool) (pf : List (Nat × Bytes) × Nat) (jump : Option Nat) (s1 : St) :
     Except (Nat × St) St :=
-  match file with
-  | none => .error (Gen.E.file_not_found, release fixHold s1)
-  | some (prog, size) =>
-    let s2 := { s1 with prog := prog, mem := { s1.mem with progSize := size, code := [] },
-                        it := clearStacks s1.it }
-    if !jumpOk prog jump then .error (Gen.E.ifc, release fixHold s2)
-    else .ok { s2 with it := { s2.it with runMode := true } }
+  let s2 := { s1 with prog := pf.1, mem := { s1.mem with progSize := pf.2, code := [] },
+                      it := clearStacks s1.it }
+  if !jumpOk pf.1 jump then .error (Gen.E.ifc, release fixHold s2)
+  else .ok { s2 with it := { s2.it with runMode := true } }
 
 /-- after the `yield` of `preserve_commons`, then `fix_temporaries` -/
 def chainFinish (fixHold : Bool) (st : Store) (ss : List (Bytes × Cell)) (sa : List (Bytes × Arr)) (s3 : St) :
@@ -374,9 +371,10 @@ def migrateAll (m : Mem) (ss : List (Bytes × Cell)) (sa : List (Bytes × Arr)) 
   let r2 := migrate m r1.1 (sortDesc (arrayEntries sa))
   (r2.1, rewriteScalars r1.2 ss, rewriteArrays r2.2 sa)
 
-/-- `Implementation.chain_`.  `fixHold`, `fixCopy`: the two repairs (both `true` in `chainStmt`). -/
-def chainWith (fixHold fixCopy : Bool) (merge all : Bool) (commS commA : List Bytes)
-    (file : Option (List (Nat × Bytes) × Nat)) (jump : Option Nat) (s : St) : Except (Nat × St) St :=
+/-- `Implementation.chain_` once the file has been opened: `preserve_commons` around `_clear_all`,
+    LOAD / MERGE, jump.  `fixHold`, `fixCopy`: the two repairs (both `true` in `chainStmt`). -/
+def chainOpened (fixHold fixCopy : Bool) (merge all : Bool) (commS commA : List Bytes)
+    (pf : List (Nat × Bytes) × Nat) (jump : Option Nat) (s : St) : Except (Nat × St) St :=
   let m := s.mem
   let ss := pick (if all then m.scalars.map (·.1) else commS) m.scalars
   let sa := pick (if all then m.arrays.map (·.1) else commA) m.arrays
@@ -385,9 +383,18 @@ def chainWith (fixHold fixCopy : Bool) (merge all : Bool) (commS commA : List By
     .error (Gen.E.out_of_string_space, release fixHold held) else
   let mg := migrateAll m ss sa
   let s1 := clearAll false all (!commS.isEmpty || !commA.isEmpty || all) merge held
-  match chainLoad fixHold file jump s1 with
+  match chainLoad fixHold pf jump s1 with
   | .error x => .error x
   | .ok s3 => chainFinish fixHold mg.1 mg.2.1 mg.2.2 s3
+
+/-- `Implementation.chain_`: the file is opened FIRST (`file = none`: it cannot be opened); then nothing
+    has been touched yet - no variable cleared, collection not held - and the error is an ordinary,
+    trappable File not found. -/
+def chainWith (fixHold fixCopy : Bool) (merge all : Bool) (commS commA : List Bytes)
+    (file : Option (List (Nat × Bytes) × Nat)) (jump : Option Nat) (s : St) : Except (Nat × St) St :=
+  match file with
+  | none => .error (Gen.E.file_not_found, s)
+  | some pf => chainOpened fixHold fixCopy merge all commS commA pf jump s
 
 def chainStmt := chainWith true true
 
